@@ -3,7 +3,7 @@
 for m in "$@"; do
   id=${m%%:*}; ch=${m#*:}
   p=${id:0:3}
-  if [[ $id == *-5* ]]; then src=/tmp/wt/m5-$p/_seeded5/${id: -1}; elif [[ $id == *-4* ]]; then src=/tmp/wt/m4-$p/_seeded4/${id: -1}; elif [[ $id == *-3* ]]; then src=/tmp/wt/m3-$p/_seeded3/${id: -1}; elif [[ $id == *-2* ]]; then src=/tmp/wt/m-$p/_seeded2/${id: -1}; else src=/tmp/wt/m-$p/_seeded/${id: -1}; fi
+  if [[ $id == *-6* ]]; then src=/tmp/wt/m6-$p/_seeded6/${id: -1}; elif [[ $id == *-5* ]]; then src=/tmp/wt/m5-$p/_seeded5/${id: -1}; elif [[ $id == *-4* ]]; then src=/tmp/wt/m4-$p/_seeded4/${id: -1}; elif [[ $id == *-3* ]]; then src=/tmp/wt/m3-$p/_seeded3/${id: -1}; elif [[ $id == *-2* ]]; then src=/tmp/wt/m-$p/_seeded2/${id: -1}; else src=/tmp/wt/m-$p/_seeded/${id: -1}; fi
   d=/verif/seeded/$id; mkdir -p $d
   for f in patch.diff demo.py meta.json; do [ -f $d/$f ] || cp $src/$f $d/$f; done
   SEEDED_BUDGET=${SEEDED_BUDGET:-40} /venv/bin/python /verif/seeded_eval.py detect $id $ch 2>&1 | grep -v KNOWN | tail -3 | cut -c1-300
